@@ -56,6 +56,10 @@ pub struct Shim {
     /// optional observer called on every note: (access, block index or usize::MAX, site)
     pub trace: bool,
     pub trace_log: Vec<String>,
+    /// `LSVERIF_SHIM=system`: every block is an exact allocation of the system allocator and is
+    /// really freed on release (no arena, guards or quarantine). Used when the engine itself runs
+    /// under Miri, which then sees the bounds and lifetime of every block.
+    pub system: bool,
 }
 
 thread_local! {
@@ -85,13 +89,19 @@ impl Shim {
             sizes: Vec::new(),
             trace: false,
             trace_log: Vec::new(),
+            system: std::env::var("LSVERIF_SHIM").is_ok_and(|v| v == "system"),
         }
     }
 
     /// Forget everything: start of a new execution.
     pub fn reset(&mut self) {
+        let system = self.system;
         for b in self.blocks.drain(..) {
-            if let Some((raw, raw_size)) = b.big {
+            if system {
+                if b.live {
+                    unsafe { std::alloc::dealloc(b.base as *mut u8, Layout::from_size_align(b.size, b.align).unwrap()) }
+                }
+            } else if let Some((raw, raw_size)) = b.big {
                 unsafe { std::alloc::dealloc(raw as *mut u8, Layout::from_size_align(raw_size, 4096).unwrap()) }
             }
         }
@@ -130,6 +140,13 @@ impl Shim {
     }
 
     fn carve(&mut self, layout: Layout) -> *mut u8 {
+        if self.system {
+            let p = unsafe { std::alloc::alloc(layout) };
+            assert!(!p.is_null());
+            unsafe { std::ptr::write_bytes(p, FILL_FRESH, layout.size()) };
+            self.blocks.push(Block { base: p as usize, size: layout.size(), align: layout.align(), live: true, big: None });
+            return p;
+        }
         let align = layout.align().max(16);
         let need = layout.size() + 2 * GUARD + align;
         let (raw, big) = if self.bump + need <= ARENA {
@@ -158,9 +175,20 @@ impl Shim {
         // newest first: the most recent block is the likeliest target
         // `<=`: a zero-capacity buffer has its text pointer one past the end of its block; the
         // byte after a block belongs to that block's rear guard zone, so this is unambiguous
+        if self.system {
+            // addresses may be reused after a real free: prefer the live block
+            if let Some(i) = self.blocks.iter().rposition(|b| b.live && addr >= b.base && addr <= b.base + b.size) {
+                return Some(i);
+            }
+        }
         self.blocks.iter().rposition(|b| addr >= b.base && addr <= b.base + b.size)
     }
     fn find_base(&self, addr: usize) -> Option<usize> {
+        if self.system {
+            if let Some(i) = self.blocks.iter().rposition(|b| b.live && b.base == addr) {
+                return Some(i);
+            }
+        }
         self.blocks.iter().rposition(|b| b.base == addr)
     }
 
@@ -185,7 +213,11 @@ impl Shim {
                     ));
                 }
                 self.blocks[i].live = false;
-                unsafe { std::ptr::write_bytes(p, FILL_FREED, self.blocks[i].size) };
+                if self.system {
+                    unsafe { std::alloc::dealloc(p, Layout::from_size_align(self.blocks[i].size, self.blocks[i].align).unwrap()) };
+                } else {
+                    unsafe { std::ptr::write_bytes(p, FILL_FREED, self.blocks[i].size) };
+                }
                 true
             }
         }
@@ -201,6 +233,9 @@ impl Shim {
     /// Guard zones of every block and poison of every freed block must be intact.
     pub fn audit(&self) -> Vec<String> {
         let mut e = Vec::new();
+        if self.system {
+            return e;
+        }
         for (i, b) in self.blocks.iter().enumerate() {
             unsafe {
                 let lo = std::slice::from_raw_parts((b.base - GUARD) as *const u8, GUARD);
